@@ -176,4 +176,13 @@ PROPS = {
         modelled=["modelled, not verified: encoding/asn1 marshalling incl. MarshalWithParams on struct tags (Gopki.Model.Extensions), reflection in partialMarshallStruct"],
         assumptions=[],
     ),
+    "C20": dict(
+        modules=["Gopki.Props.C20"], theorems=[], ops=["crash", "pkcs8", "pemfile", "rdn", "raw"], sites=True,
+        rule="crash (search support, not proof): hostile values (empty, huge, malformed OIDs/dates/raw strings, extreme integers) substituted into generated forests with profiles at rates 1/6..1/30 x all 32 flag sets; "
+             "byte-level mutations of configuration text; root->sub with every pair of 16 artifact states (absent, garbage PEM blocks, odd hash lines, foreign key types) x flag sets; gopki-written artifacts stripped/truncated/mutated x flag sets; "
+             "plus the unit operations of C03/C06/C17 run under recover; the panic-site inventory of the anchored files is regenerated and compared with panic_sites.expected.json; non-trivial = every case (outcome class recorded)",
+        modelled=["panics inside the standard library and third-party parsers (YAML, JSON schema, encoding/asn1, crypto) on arbitrary bytes are outside the model: partial; only sites in gopki's own files are obligations",
+                  "the discharge arguments in panic_sites.expected.json are reviewed prose for index/slice/dereference sites and lemma references for the explicit panics"],
+        assumptions=[],
+    ),
 }
